@@ -284,6 +284,15 @@ func propSetTimeRangeSeq(args []string) string {
 		if err != nil {
 			return fmt.Sprintf("after call %d on %q the condition %q is not usable: %v", i+1, text, c.String(), err)
 		}
+		// the window is written as absolute instants (RFC 3339 with Z): read under a clock in another time zone
+		// it is the same window (round-4 seeded change C18-2 parsed such strings in the zone of the valuer)
+		for _, off := range []int{-8 * 3600, 5*3600 + 1800} {
+			_, trz, errz := influxql.ConditionExpr(influxql.CloneExpr(c), &influxql.NowValuer{Now: strNow, Location: time.FixedZone("", off)})
+			if errz == nil && (!trz.Min.Equal(tr.Min) || !trz.Max.Equal(tr.Max)) {
+				return fmt.Sprintf("after call %d on %q the condition %q selects [%s, %s] under a UTC clock and [%s, %s] under a clock at offset %d s", i+1, text, c.String(),
+					tr.Min.UTC().Format(time.RFC3339Nano), tr.Max.UTC().Format(time.RFC3339Nano), trz.Min.UTC().Format(time.RFC3339Nano), trz.Max.UTC().Format(time.RFC3339Nano), off)
+			}
+		}
 		inRange := func(t time.Time) bool {
 			if !tr.Min.IsZero() && t.Before(tr.Min) {
 				return false
@@ -375,6 +384,27 @@ func propSetTimeRangeSeq(args []string) string {
 				}
 			}
 		})
+		// … and when the condition is replaced altogether (the exported field assigned) by one that already ends
+		// in a window of the shape SetTimeRange writes, with a further bound before it (round-4 seeded change
+		// C18-1 trusted a "range already set" flag and swapped only the last two conjuncts)
+		for _, extra := range []string{"time > now() - 1h AND ", "time >= 5 AND time < 100000000000000000000 AND ", ""} {
+			repl, rerr := influxql.ParseExpr("region_r = 'west' AND " + extra + "time >= '2010-01-01T00:00:00Z' AND time < '2010-01-02T00:00:00Z'")
+			if rerr != nil {
+				continue
+			}
+			w := ws[len(ws)-1]
+			start, end := time.Unix(0, w.start).UTC(), time.Unix(0, w.end).UTC()
+			primed := &influxql.SelectStatement{Condition: influxql.CloneExpr(stmt.Condition)}
+			if primed.SetTimeRange(start, end) != nil {
+				continue
+			}
+			primed.Condition = influxql.CloneExpr(repl)
+			fresh := &influxql.SelectStatement{Condition: influxql.CloneExpr(repl)}
+			e1, e2 := primed.SetTimeRange(start, end), fresh.SetTimeRange(start, end)
+			if (e1 == nil) != (e2 == nil) || (e1 == nil && primed.Condition.String() != fresh.Condition.String()) {
+				return fmt.Sprintf("condition replaced by %q after a window was set: SetTimeRange gives %q (%v), on a statement that never had a window %q (%v)", repl.String(), primed.Condition, e1, fresh.Condition, e2)
+			}
+		}
 		twin := &influxql.SelectStatement{Condition: influxql.CloneExpr(stmt.Condition)}
 		w := ws[len(ws)-1]
 		start, end := time.Unix(0, w.start).UTC(), time.Unix(0, w.end).UTC()
